@@ -559,6 +559,9 @@ class LabReplay:
                 if not isinstance(out.exc, ValueError):
                     self.report("C07", "supported_pairing_crashes", dict(key, exc=type(out.exc).__name__),
                                 f"{out.call}: raised {type(out.exc).__name__}: {out.exc}", ev, ctx["pre_key"])
+                elif ev["res"] == "ok" and ev["cls"] == "interior":
+                    self.report("C07", "supported_pairing_refused", dict(key, exc="ValueError"),
+                                f"{out.call}: a supported pairing of addressed wells with a feasible quantity raised ValueError: {out.exc}", ev, ctx["pre_key"])
                 return
             if ev["res"] != "ok":
                 return
@@ -595,9 +598,9 @@ class LabReplay:
             return
         # remove / fill_to on a plate or slice
         if not out.ok:
-            if ev["res"] == "ok" and not isinstance(out.exc, ValueError):
-                self.report("C07", "plate_operation_crashes", dict(key, exc=type(out.exc).__name__),
-                            f"{out.call}: raised {type(out.exc).__name__}: {out.exc}", ev, ctx["pre_key"])
+            if ev["res"] == "ok" and (not isinstance(out.exc, ValueError) or ev["cls"] == "interior"):
+                self.report("C07", "plate_operation_crashes" if not isinstance(out.exc, ValueError) else "plate_operation_refused",
+                            dict(key, exc=type(out.exc).__name__), f"{out.call}: raised {type(out.exc).__name__}: {out.exc}", ev, ctx["pre_key"])
             return
         n = ev["n"]
         pre_w, post_w = self.P.wells_of(objs[n]), self.P.wells_of(out.new[n])
